@@ -32,6 +32,8 @@ def replay_engine_a(prop, rp, path):
     from . import numlib as NL, ops as OPS
     from .views import BYNAME, groups, num_view, cart_of
     cx = rp.get("counterexample")
+    if cx and "lemma" in cx and cx.get("inputs") is not None:
+        return replay_lemma(prop, rp, cx, path)
     if not cx or "stored" not in cx:
         print("no concrete input recorded (no-failing-input-found)")
         print(json.dumps(rp, indent=1)[:3000])
@@ -85,4 +87,44 @@ def replay_engine_a(prop, rp, path):
         print(f"VIOLATION property={prop} replay={os.path.relpath(path, C.ROOT)}")
         return 1
     print("the recorded input no longer violates the obligation on this tree")
+    return 0
+
+
+def replay_lemma(prop, rp, cx, path):
+    """re-evaluate a lemma (a contract over several real functions) at the recorded inputs, on the real functions at 60 digits"""
+    import mpmath as mp
+    from . import lemmas as LM, modular, numlib as NL
+    mod = importlib.import_module(f"vv.props.{prop.lower()}")
+    jobs = [j for j in getattr(mod, "LEMMAS", []) if j.lid == cx["lemma"]]
+    if not jobs:
+        print(f"lemma {cx['lemma']} is no longer defined; solver output follows (no-failing-input-found)")
+        print(json.dumps(rp, indent=1)[:3000])
+        return 1
+
+    def conv(v):
+        if isinstance(v, (list, tuple)):
+            return [conv(x) for x in v]
+        if isinstance(v, bool):
+            return v
+        if isinstance(v, str) and v in ("True", "False"):
+            return v == "True"
+        return mp.mpf(v)
+    vals = conv(cx["inputs"])
+    if cx.get("structured_point") and cx.get("base_inputs") is not None and jobs[0].structured is not None:
+        modular.ensure_installed()
+        for lab, v2 in jobs[0].structured(conv(cx["base_inputs"])):
+            if lab == cx["structured_point"]:
+                vals = v2
+    L = LM.LNum(vals, cx.get("case") or {})
+    print(f"lemma {cx['lemma']} case {cx.get('case')} at inputs {cx['inputs']}" + (f" ({cx['structured_point']})" if cx.get("structured_point") else ""))
+    try:
+        jobs[0].func(L)
+    except LM.Fail as f:
+        print(f"claim `{f.name}` fails on the real functions: got {f.got}, expected {f.exp}")
+        print(f"VIOLATION property={prop} replay={os.path.relpath(path, C.ROOT)}")
+        return 1
+    except (LM.Reject, NL.OutsideDomain, ZeroDivisionError, ValueError) as e:
+        print(f"the recorded input is outside the lemma's domain on this tree ({type(e).__name__}: {e})")
+        return 0
+    print(f"all {L.checked} claims of the lemma hold at the recorded input on this tree")
     return 0
